@@ -203,3 +203,10 @@ pub fn stub_regex_new(_: &str) -> Result<regex::Regex, regex::Error> {
 pub fn stub_random_state_new() -> std::hash::RandomState {
     unsafe { core::mem::transmute::<[u64; 2], std::hash::RandomState>([0x0123_4567, 0x89ab_cdef]) }
 }
+
+pub fn stub_conversion_convert<T>(_this: &crate::compiler::conversion::Conversion, _bytes: bytes::Bytes) -> Result<T, crate::compiler::conversion::Error>
+where
+    T: From<bytes::Bytes> + From<i64> + From<ordered_float::NotNan<f64>> + From<bool> + From<chrono::DateTime<chrono::Utc>>,
+{
+    panic!("UNSUPPORTED-BY-HARNESS: Conversion::convert (std string parsing) reached");
+}
